@@ -90,6 +90,28 @@ func (fr *Frame) doCall(call *ssa.CallCommon, fv Value, args []Value, in ssa.Ins
 	if b, ok := call.Value.(*ssa.Builtin); ok && !call.IsInvoke() {
 		return fr.builtin(b, call, args, in)
 	}
+	if ex.isHavocSite(fr) {
+		lib := false
+		what := ""
+		if call.IsInvoke() {
+			lib = call.Method.Pkg() != nil && !strings.Contains(call.Method.Pkg().Path(), ".")
+			what = call.Method.Name()
+		} else if sc := call.StaticCallee(); sc != nil {
+			lib = isLibraryFn(sc) || isVxPkg(sc.Pkg)
+			what = sc.Name()
+			if sc.Parent() != nil && ex.isHavocSiteFn(sc) {
+				lib = true // a closure of the function under test is part of it
+			}
+		} else {
+			what = "dynamic call"
+			if f, ok := fv.(*VFunc); ok && len(f.Alts) == 1 && ex.isHavocSiteFn(f.Alts[0].Fn) {
+				lib = true
+			}
+		}
+		if !lib {
+			return ex.havocCall(fr, call.Signature(), what)
+		}
+	}
 	var resT types.Type
 	sig := call.Signature()
 	switch sig.Results().Len() {
@@ -185,6 +207,23 @@ func (fr *Frame) callFn(fn *ssa.Function, bind []Value, recv Value, args []Value
 	if r, ok := fr.intrinsic(fn, args, pc, in); ok {
 		return r
 	}
+	if fn.Pkg != nil && !isVxPkg(fn.Pkg) {
+		// environment stubs written in Go by the harness: VXStub_<Func> or VXStub_<Type>_<Method> in the same package
+		name := "VXStub_" + fn.Name()
+		if recv := fn.Signature.Recv(); recv != nil {
+			rt := recv.Type()
+			if p, ok := rt.(*types.Pointer); ok {
+				rt = p.Elem()
+			}
+			if n, ok := rt.(*types.Named); ok {
+				name = "VXStub_" + n.Obj().Name() + "_" + fn.Name()
+			}
+		}
+		if st := fn.Pkg.Func(name); st != nil && st != fn && st.Blocks != nil {
+			fn = st
+			bind = nil
+		}
+	}
 	if fn.Blocks == nil || (fn.Pkg != nil && ex.isStubbedPkg(fn)) {
 		full := fn.String()
 		if st := ex.vxFunc(stubName(full)); st != nil {
@@ -241,6 +280,10 @@ func (fr *Frame) intrinsic(fn *ssa.Function, args []Value, pc *Term, in ssa.Inst
 			label := ex.constStrArg(args[1])
 			ex.Obls = append(ex.Obls, Obligation{Kind: "reach", Cond: pc, Label: label, Pos: ex.pos(in), Fn: fr.fn.String()})
 			ex.Obls = append(ex.Obls, Obligation{Kind: "assert", Cond: ts.And(pc, ts.Not(c)), Label: label, Pos: ex.pos(in), Fn: fr.fn.String()})
+			return nil, true
+		case "Exit":
+			// the process ends here (os.Exit / log.Fatal): nothing after it is reachable
+			ex.Assumes = append(ex.Assumes, ts.Not(pc))
 			return nil, true
 		case "Cover":
 			label := ex.constStrArg(args[0])
@@ -602,6 +645,15 @@ func isHarnessFn(fn *ssa.Function) bool {
 		}
 		n := f.Name()
 		if strings.HasPrefix(n, "VX_") || strings.HasPrefix(n, "ref") {
+			return true
+		}
+	}
+	return false
+}
+
+func (ex *Exec) isHavocSiteFn(fn *ssa.Function) bool {
+	for f := fn; f != nil; f = f.Parent() {
+		if f == ex.Havoc.Root {
 			return true
 		}
 	}
